@@ -130,12 +130,13 @@ class Gen:
     def simple_op(self, k, pool, depth=0):
         r = self.r
         pi = pool["idx"]
+        msg = {"msg": r.choice(["bye", "", "stop it"])} if r.random() < 0.3 else {}
         if k == "cancel":
-            return {"op": "cancel", "pool": pi, "ids": self.ids()}
+            return {"op": "cancel", "pool": pi, "ids": self.ids(), **msg}
         if k == "cancel_group":
-            return {"op": "cancel_group", "pool": pi, "sel": self.group_sel()}
+            return {"op": "cancel_group", "pool": pi, "sel": self.group_sel(), **msg}
         if k == "cancel_all":
-            return {"op": "cancel_all", "pool": pi}
+            return {"op": "cancel_all", "pool": pi, **msg}
         if k == "stop":
             if r.random() < 0.2:
                 return {"op": "stop_all", "pool": pi}
